@@ -133,6 +133,21 @@ def run(ctx) -> None:
         if _m.name in ("aas_core_codegen.python.lib._generate_jsonization", "aas_core_codegen.python.lib._generate_xmlization"):
             for _f in _m.functions.values():
                 _skips.check_skips(ctx, _f, "SKIPS", _base)
+    # what the (de)serializers embed from the meta-model (namespace, names, literal values) goes through the Python literal
+    # functions, and these denote their argument (shared with C20 / C19): otherwise the SDK reads back another text than it wrote
+    ctx.rule("TAINT", "free text of the meta-model reaches the generated Python (de)serializers only through literal functions (shared with C20)", floor=3)
+    from . import c20 as _c20
+    _c20.check_taint(ctx, scope=lambda m: m.name.startswith("aas_core_codegen.python.lib._generate_") and m.name.rsplit("_generate_", 1)[-1] in ("jsonization", "xmlization", "stringification"))
+    ctx.rule("CHR", "python string/bytes literal functions: forbidden characters never raw, only legal escapes (shared with C19)", floor=40)
+    from . import c19 as _c19
+    from ..rules import chr as _C
+    for _lang, _key, _modes in _c19.JOBS:
+        if _lang != "python":
+            continue
+        _lf = ctx.p.func(_key)
+        for _mode in _modes:
+            for _part in _C.analyse_escaper(ctx, _lf, _mode, _C.spec_boundaries(_lang)):
+                _C.judge(ctx, "CHR", _part, _lang)
     ctx.rule("LIT-KW", "interpolation-only options of the literal functions are used only for parts of interpolated strings", floor=4)
     from ..rules import litkw as _litkw
     _litkw.check_literal_keywords(ctx, "LIT-KW")
